@@ -130,6 +130,15 @@ def parseOp : List String → Option Op
   | ["raise_on_message", n] => n.toNat?.map .raiseOnMessage
   | _ => none
 
+/-- `setmid live k`: just before the id of the k-th message the client still owns (the next allocation collides with
+it); `setmid fresh _`: the start of the next block of 1000 ids above the generator and every id still owned -/
+def setMid (s : S) (how : String) (k : Nat) : Nat :=
+  if how = "live" then
+    match s.out[k % (max s.out.length 1)]? with
+    | some m => if m.mid ≤ 1 then 65535 else m.mid - 1
+    | none => s.lastMid
+  else ((s.out.foldl (fun acc m => max acc m.mid) s.lastMid) / 1000 + 1) * 1000 % 65000
+
 def sessionStep (s : S) (ws : List String) : S × String :=
   match ws with
   | "cfg" :: rest =>
@@ -138,9 +147,9 @@ def sessionStep (s : S) (ws : List String) : S × String :=
     (s, "ok | " ++ probe s)
   | _ =>
     match ws with
-    | ["setmid", n] =>
+    | ["setmid", how, k] =>
       -- fast-forward of the id generator (stands for the allocations in between, e.g. QoS 0 publishes): T2 only
-      let s' := { s with lastMid := (n.toNat?.getD 0) % 65536 }
+      let s' := { s with lastMid := setMid s how (k.toNat?.getD 0) }
       ({ s' with log := [] }, " | " ++ probe s')
     | _ =>
     match parseOp ws with
@@ -165,7 +174,7 @@ def sessionInvStep (st : S × Bool) (ws : List String) : (S × Bool) × String :
     ((s, true), " ".intercalate s.failing)
   | _ =>
     match ws with
-    | ["setmid", n] => (({ s with lastMid := (n.toNat?.getD 0) % 65536 }, conf), "")
+    | ["setmid", how, k] => (({ s with lastMid := setMid s how (k.toNat?.getD 0) }, conf), "")
     | _ =>
     match parseOp ws with
     | none => (st, "bad-op")
